@@ -51,7 +51,7 @@ pub fn is_decompressor_target(t: u8) -> bool {
     matches!(t % N_TARGETS, T_GZIP | T_ZLIB | T_ZSTD | T_LZ4 | T_BROTLI | T_SUB_ZSTD | T_SUB_BROTLI_BINCODE | T_REQ_GZIP_BINCODE | T_SUB_LZ4_BINCODE)
 }
 
-fn decomp_for(t: u8) -> Option<Box<dyn selium_std::traits::compression::Decompress + Send>> {
+fn decomp_for(t: u8) -> Option<Box<dyn selium_std::traits::compression::Decompress + Send + Sync>> {
     use selium_std::compression::{brotli::*, deflate::*, lz4::*, zstd::*};
     Some(match t {
         T_GZIP | T_REQ_GZIP_BINCODE => Box::new(DeflateDecomp::gzip()),
